@@ -240,7 +240,7 @@ class HDeck(Deck):
                 surf_nums(t[1], acc); surf_nums(t[2], acc)
 
         def walk(u, A, depth):
-            if depth > 8:
+            if depth > 40:
                 return
             for c in self.universe(u):
                 M = c.trcl.motion.then(A) if c.trcl is not None else A
@@ -296,7 +296,7 @@ class HDeck(Deck):
         return chains, problems
 
     def _locate(self, u, Q, idx, chain, chains, problems, depth):
-        if depth > 8:
+        if depth > 40:
             raise RuntimeError('universe recursion too deep')
         cells = self.universe(u)
         count = np.zeros(len(Q), int)
